@@ -29,7 +29,7 @@ func RunAggregationLoop(ext *extractor.Extractor, aggregator aggregation.Aggrega
 			case <-outputDone:
 				verifTrace("t.done", "", 0, 0)
 				return
-			case <-time.After(verifTick(100 * time.Millisecond)):
+			case <-time.After(100 * time.Millisecond):
 				verifTrace("t.tick", "", 0, 0)
 				outputMutex.Lock()
 				verifTrace("t.locked", "", 0, 0)
